@@ -73,10 +73,39 @@ def load():
         {'socketserver': ss, 'socket': sh_socket, 'time': sh_time},
         package='http')
     sh_http = None
+    import ssl as _ssl
+
+    class SimSSLError(OSError):
+        library = None
+
+    class SimSSLContext:
+        """TLS stub: certificates are names ('sim:good' loads, 'sim:badpem'
+        is a bad PEM file, anything else does not exist); the wrapped
+        socket is the plain simulated socket (no handshake, no
+        encryption)."""
+
+        def __init__(self, protocol=None):
+            self.options = 0
+
+        def load_cert_chain(self, certfile=None, keyfile=None,
+                            password=None):
+            if certfile == 'sim:good':
+                return
+            if certfile == 'sim:badpem':
+                e = SimSSLError('[SSL] PEM lib (_ssl.c:0)')
+                e.library = 'SSL'
+                raise e
+            raise FileNotFoundError(2, 'No such file or directory')
+
+        def wrap_socket(self, sock, server_side=False, **_kw):
+            return sock
+    sh_ssl = shims.shim_module(_ssl, SSLContext=SimSSLContext,
+                               SSLError=SimSSLError)
     L = load_under_shims(
         'pywbem._listener__sim', real_listener.__file__,
         {'threading': sh_threading, 'queue': sh_queue, 'socket': sh_socket,
-         'socketserver': ss, 'http.server': hs, 'time': sh_time},
+         'socketserver': ss, 'http.server': hs, 'time': sh_time,
+         'ssl': sh_ssl},
         package='pywbem')
 
     # record exceptions that escape a request handler (stdlib prints them)
@@ -234,7 +263,7 @@ def run_world(plan, keep_log=False):
       'main': [op,...]
          op = ['start'] | ['stop'] | ['occupy', port] | ['free', port] |
               ['senders', [idx,...]] | ['sleep', t] | ['wait_resp', n] |
-              ['join_senders'] | ['yield', n]
+              ['join_senders'] | ['yield', n] | ['wait_idle']
     }
     """
     w = load()
@@ -379,7 +408,8 @@ def run_world(plan, keep_log=False):
                              max_ind_queue_size=lp.get('queue', 0), **kw)
         state['listener'] = lst
         for j, spec in enumerate(cbspecs):
-            lst.add_callback(make_cb(j, spec))
+            if not spec.get('late'):
+                lst.add_callback(make_cb(j, spec))
         for op in plan['main']:
             name = op[0]
             rec = {'op': op, 'seq0': ev('op', op=name)}
@@ -388,6 +418,8 @@ def run_world(plan, keep_log=False):
                     lst.start()
                 elif name == 'stop':
                     lst.stop()
+                elif name == 'add_callback':
+                    lst.add_callback(make_cb(op[1], cbspecs[op[1]]))
                 elif name == 'occupy':
                     s = net.FakeListenSocket()
                     try:
@@ -416,6 +448,12 @@ def run_world(plan, keep_log=False):
                     sch.block(lambda n=op[1]: resp_count[0] >= n or all(
                         t.done for t in sender_tasks.values()), None,
                         'wait_resp')
+                elif name == 'wait_idle':
+                    # every indication that was put into a queue has been
+                    # taken out and completely processed (task_done)
+                    sch.block(lambda: all(
+                        not q.q and q.unfinished_tasks == 0
+                        for q in sch.queues), None, 'wait_idle')
                 elif name == 'join_senders':
                     sch.block(lambda: all(
                         t.done for t in sender_tasks.values()), None,
